@@ -587,6 +587,6 @@ def run(tier, seed):
 MANIFEST = {
     "engine": "H",
     "technique": "explicit-state BFS over allocate/write/close/abort/timeout/disconnect histories on a real StorageServer with virtual clock and harness canaries, reference dict stepped alongside, exhaustive reads and listings in every reached state",
-    "text": "One share with the full write alphabet (every offset/length incl. overflow, two payloads that differ everywhere) is explored to closure; 2 storage indexes x 2 share numbers are explored to the stated history length with a reduced and with the full write alphabet. After every transition get_buckets, all 36 (offset, length) reads of every listed share, the raw incoming/final files and allocated_size() are compared with the reference: visible iff closed, written bytes exact and clipped, conflicting writes rejected without changing stored bytes, aborted/timed-out/disconnected uploads leave no file and no reservation.",
+    "text": "One share with the full write alphabet (every offset/length incl. overflow, two payloads that differ everywhere) is explored to closure; 2 storage indexes x 2 share numbers are explored to the stated history length with a reduced and with the full write alphabet. After every transition get_buckets, all 36 (offset, length) reads of every listed share, the raw incoming/final files and allocated_size() are compared with the reference: visible iff closed, written bytes exact and clipped, conflicting writes rejected without changing stored bytes, aborted/timed-out/disconnected uploads leave no file and no reservation. Outside the BFS, overflow probes on 4- and 100-byte shares: a write ending 1 byte .. beyond a lease record past the allocated size is refused or accepted, the share completed, and reads must be clipped at the allocated size with the in-range bytes intact.",
     "note": "4-share roots are depth-bounded (evidence roots). Holes read back as any byte. Exact timeout instant follows the implementation except that 30 idle minutes must time out. Reservation kept after a successful close is counted here and flagged by C28. Every transition is a fresh replay on the real code.",
 }
